@@ -1,20 +1,20 @@
-SPECIFICATION Spec
+SPECIFICATION RSpec
 CONSTANTS
   NVB = 2
   InitLog <- EmptyLog
-  MaxSeq = 1
+  MaxSeq = 3
   Keys = {"user"}
   Kinds = {"mut"}
   OldEvents = FALSE
   BadEvents = FALSE
   FoUuid <- Fo10
   Savers = {"p"}
-  MaxSaves = 0
+  MaxSaves = 5
   MaxCrash = 0
-  MaxAcks = 1
+  MaxAcks = 5
   MaxGen = 4
-  MaxNotify = 1
-  MaxEnds = 2
+  MaxNotify = 5
+  MaxEnds = 6
   MaxFail = 0
   AutoReset = "earliest"
   Finite = FALSE
@@ -22,15 +22,15 @@ CONSTANTS
   Infos <- Infos2
   Info0 <- Info11
   EndCauses = {"socket", "statechanged", "ok"}
-  Hold = FALSE
+  Hold = TRUE
   AllowClose = TRUE
   Rollbacks = FALSE
   FailSaves = FALSE
   Focus = FALSE
-  Record = FALSE
+  Record = TRUE
   ReadOnly = FALSE
   AckSplit = FALSE
-  HoldCb = FALSE
+  HoldCb = TRUE
   RM = FALSE
   Slots = 1
   RmUuids = {1, 2}
@@ -41,6 +41,5 @@ CONSTANTS
   WindAt = 0
   Gaps = {}
   Bugs = {}
-VIEW view
-INVARIANTS C07 C16 C01 C02 C03 C04 C05 C06 C08 C11 C12 C13 C14 C15 StoreAgrees ReopenArmed
+INVARIANTS DumpSched
 CHECK_DEADLOCK FALSE
